@@ -331,6 +331,74 @@ func zvfMeasureOp(kind string, rnd *mrand.Rand) zvfCMeasure {
 	return m
 }
 
+// zvfCLeak: the state of Server.mu after an operation returned although the k-th upstream request was faulted.
+type zvfCLeak struct {
+	Op       string `json:"op"`
+	K        int    `json:"k"`
+	Kind     string `json:"kind"`
+	Fired    bool   `json:"fired"`
+	Hang     bool   `json:"hang"`      // the faulted operation itself did not return
+	Held     string `json:"held"`      // N / R / W: mode in which Server.mu is still held after the return
+	NextHang bool   `json:"next_hang"` // a following operation did not complete
+}
+
+// zvfLeakScan faults each upstream request of each operation in turn and looks at the lock afterwards.
+func zvfLeakScan(nreq map[string]int, rnd *mrand.Rand) []zvfCLeak {
+	var out []zvfCLeak
+	for _, kind := range zvfCKinds {
+		for _, fk := range []string{"fail", "garbage", "close"} {
+			for k := 1; k <= nreq[kind]; k++ {
+				c := zvfNewCInst(rnd, rnd.Intn(2) == 0, true)
+				if kind == "unlock" {
+					if err := c.srv.Lock([]byte("p1")); err != nil {
+						panic(err)
+					}
+				}
+				arg := zvfCArg(kind, rnd)
+				if kind == "remove" {
+					arg = "c3"
+				}
+				if kind == "addhard" {
+					arg = "c1"
+				}
+				l := zvfCLeak{Op: kind, K: k, Kind: fk}
+				c.px.Begin()
+				c.px.ArmAt(fk, k)
+				done := make(chan struct{})
+				go func() {
+					zvfCExecExt(c.zvfVInst, kind, arg)
+					close(done)
+				}()
+				select {
+				case <-done:
+				case <-time.After(20 * time.Second):
+					l.Hang = true
+				}
+				l.Fired, _ = c.px.Fired()
+				if !l.Hang {
+					l.Held = zvfProbeMu(c.srv)
+					if l.Held != "N" {
+						// confirm the consequence on the code: nobody else completes
+						d2 := make(chan struct{})
+						go func() {
+							zvfCExecExt(c.zvfVInst, "addhard", "k1") // refused at once, but only after taking Server.mu
+							close(d2)
+						}()
+						select {
+						case <-d2:
+						case <-time.After(5 * time.Second):
+							l.NextHang = true
+						}
+					}
+				}
+				out = append(out, l)
+				c.close()
+			}
+		}
+	}
+	return out
+}
+
 type zvfCExperiment struct {
 	A, B      string
 	ArgA      string `json:"argA"`
@@ -481,6 +549,7 @@ func TestVerifConc(t *testing.T) {
 		hung[m.Op] = m.Hang
 		zvfCHung[m.Op] = m.Hang
 	}
+	tr.Emit(map[string]interface{}{"ev": "leaks", "table": zvfLeakScan(nreq, rnd)})
 	reps := verifh.EnvInt("VERIF_CONC_REPS", 1)
 	nexp := 0
 	for rep := 0; rep < reps; rep++ {
